@@ -136,7 +136,7 @@ def run(tier: str, seed: int, st: core.ProofStatus) -> core.Result:
                 "tree (incl. src2/, srcfile.py, upper-case names, the config file itself); 4 invalid-pattern placements; non-trivial = a "
                 "rule set under which some path is reported and some is not")
     rng = core.sub_rng(seed, PROP, tier)
-    n = 200 if tier == "quick" else 4000
+    n = 600 if tier == "quick" else 4000
     cfgs = [gen_config(rng) for _ in range(n)]
     # corpus: the F18a witness
     cfgs.insert(0, {"dirs": [{"key": "src", "deny": None, "allow": [2]}], "globalDeny": None, "globalPatterns": None})
